@@ -20,15 +20,18 @@ META = {
 }
 
 GROUP = 'MYMASK'
+FILECASE = (str.upper, str.lower, str.capitalize)
 LABELS = ['ALPHA', 'BETA', 'GAMMA', 'DELTA']
 
 
-def build_file(ctx, nlabels, with_alias=True, top_bit=False, one_digit=False):
+def build_file(ctx, nlabels, with_alias=True, top_bit=False, one_digit=False, vary=True):
     """maskbits file with symbolic bit numbers; returns (text, list of (label, bit Z))"""
     lines = ['typedef struct {', ' char flag[20];', ' short bit;', ' char label[30];', ' char description[100];', '} maskbits;', '',
              'typedef struct {', ' char flag[20];', ' char alias[20];', '} maskalias;', '']
     bits = []
     text_lines = []
+    # spelling of the names inside the file: upper case (as SDSS writes them), lower case or capitalised - lookups are case-insensitive
+    fcase = FILECASE[int(ctx.int('filecase', 0, len(FILECASE) - 1)) if vary else 0]
     for i in range(nlabels):
         if (top_bit is True and i == nlabels - 1) or (top_bit == 'first' and i == 0):
             digits = ['6', '3']
@@ -51,14 +54,14 @@ def build_file(ctx, nlabels, with_alias=True, top_bit=False, one_digit=False):
                 val = d0 - 48
             ctx.add(z3.And(val >= 0, val <= 63))
         bits.append(val)
-        text_lines.append(S('maskbits %s ' % GROUP, digits, ' %s "bit %d"' % (LABELS[i], i)))
+        text_lines.append(S('maskbits %s ' % fcase(GROUP), digits, ' %s "bit %d"' % (fcase(LABELS[i]), i)))
     for i in range(nlabels):
         for j in range(i + 1, nlabels):
             ctx.add(bits[i] != bits[j])
     other = ['maskbits OTHERGROUP 0 ZERO "zero"', 'maskbits OTHERGROUP 1 ONE "one"']
-    alias = ['maskalias %s ALIASG' % GROUP] if with_alias else []
+    alias = ['maskalias %s %s' % (fcase(GROUP), fcase('ALIASG'))] if with_alias else []
     # row order of the file: the rows of a group need not be contiguous (choice made by the solver)
-    split = int(ctx.int('rowsplit', 0, 1)) if nlabels >= 2 else 0
+    split = int(ctx.int('rowsplit', 0, 1)) if (nlabels >= 2 and vary) else 0
     rows = text_lines + other if not split else text_lines[:1] + other[:1] + text_lines[1:] + other[1:]
     text = None
     for ln in lines + rows + alias:
@@ -76,12 +79,12 @@ def sym_case(ctx, name, tag):
     return SStr.mk(items)
 
 
-def _setup(ctx, nlabels, with_alias=True, top_bit=False, one_digit=False):
+def _setup(ctx, nlabels, with_alias=True, top_bit=False, one_digit=False, vary=True):
     import pydl.pydlutils.yanny as ymod
     import pydl.pydlutils.sdss as sdss
     fs = FS()
     saved = install(ymod, fs)
-    text, defs = build_file(ctx, nlabels, with_alias, top_bit, one_digit)
+    text, defs = build_file(ctx, nlabels, with_alias, top_bit, one_digit, vary)
     fs.files['/d/mask.par'] = text
     try:
         sdss.maskbits = sdss.set_maskbits(maskbits_file='/d/mask.par')
@@ -90,9 +93,9 @@ def _setup(ctx, nlabels, with_alias=True, top_bit=False, one_digit=False):
     return sdss, defs
 
 
-def ob_flagval(nlabels, subset, use_alias, top='last'):
+def ob_flagval(nlabels, subset, use_alias, top='last', vary=False):
     def fn(ctx):
-        sdss, defs = _setup(ctx, nlabels, top_bit=(True if top == 'last' else 'first'))
+        sdss, defs = _setup(ctx, nlabels, top_bit=(True if top == 'last' else 'first'), vary=vary, one_digit=vary)
         d = {'fn': 'flagval', 'nlabels': nlabels, 'subset': list(subset), 'alias': use_alias, 'top': top}
         ctx.detail = d
         grp = sym_case(ctx, 'ALIASG' if use_alias else GROUP, 'g')
@@ -108,7 +111,7 @@ def ob_flagval(nlabels, subset, use_alias, top='last'):
         back = sdss.sdss_flagname(GROUP, val)
         order = sorted(subset, key=lambda i: 0)
         expected = [LABELS[i] for i in subset]
-        got = [str(x) for x in back]
+        got = [str(x).upper() for x in back]
         ctx.require(sorted(got) == sorted(expected), 'value -> names returns exactly the labels of the set bits', dict(d, got=got))
         # ascending bit order
         pos = {LABELS[i]: defs[i][1] for i in subset}
@@ -117,13 +120,13 @@ def ob_flagval(nlabels, subset, use_alias, top='last'):
         again = sdss.sdss_flagval(GROUP, got) if got else np.uint64(0)
         at = again.term if isinstance(again, BV) else z3.BitVecVal(int(again), 64)
         ctx.require(at == vt, 'names -> value -> names -> value is the identity on defined bits', d)
-    return Obligation('flagval labels=%d subset=%s alias=%d top=%s' % (nlabels, list(subset), use_alias, top), fn,
+    return Obligation('flagval labels=%d subset=%s alias=%d top=%s%s' % (nlabels, list(subset), use_alias, top, ' file-variants' if vary else ''), fn,
                       bounds='%d labels with symbolic bit numbers (one at bit 63), subset %s' % (nlabels, list(subset)), max_paths=400000, max_seconds=1700)
 
 
 def ob_flagname(nlabels, popcount, one_digit=False):
     def fn(ctx):
-        sdss, defs = _setup(ctx, nlabels, one_digit=one_digit)
+        sdss, defs = _setup(ctx, nlabels, one_digit=one_digit, vary=False)
         d = {'fn': 'flagname', 'nlabels': nlabels, 'popcount': popcount}
         ctx.detail = d
         # the queried value: up to `popcount` set bits at solver-chosen positions (concretised on demand)
@@ -139,7 +142,7 @@ def ob_flagname(nlabels, popcount, one_digit=False):
         d = dict(d, value=val)
         v = BV(val, 'u8')
         names = sdss.sdss_flagname(GROUP, np.uint64(val))
-        got = [str(x) for x in names]
+        got = [str(x).upper() for x in names]
         for lab, bit in defs:
             isset = z3.Extract(0, 0, z3.LShR(v.term, z3.Int2BV(bit, 64))) == 1
             ctx.require(isset == z3.BoolVal(lab in got), 'value -> names: a label is named exactly when its bit is set', dict(d, label=lab, got=got))
@@ -155,14 +158,14 @@ def ob_flagname(nlabels, popcount, one_digit=False):
             defined = defined | (z3.BitVecVal(1, 64) << z3.Int2BV(bit, 64))
         ctx.require(bt == (v.term & defined), 'value -> names -> value is the identity on defined bits', d)
         s = sdss.sdss_flagname(GROUP, np.uint64(val), concat=True)
-        ctx.require(str(s) == ' '.join(got), 'concat form joins the same names with blanks', d)
+        ctx.require(str(s).upper() == ' '.join(got), 'concat form joins the same names with blanks', d)
     return Obligation('flagname labels=%d popcount<=%d one_digit=%d' % (nlabels, popcount, one_digit), fn, bounds='every 64-bit value with <= %d set bits' % popcount,
                       max_paths=600000, max_seconds=1700)
 
 
 def ob_errors(nlabels):
     def fn(ctx):
-        sdss, defs = _setup(ctx, nlabels)
+        sdss, defs = _setup(ctx, nlabels, one_digit=True)
         d = {'fn': 'errors', 'nlabels': nlabels}
         ctx.detail = d
 
@@ -190,7 +193,7 @@ def ob_errors(nlabels):
 def obligations(tier, seed):
     q = tier == 'quick'
     obs = []
-    obs.append(ob_flagval(2, (0,), False))
+    obs.append(ob_flagval(2, (0,), False, vary=True))       # spelling of the names in the file and row order: solver choices
     obs.append(ob_flagval(2, (1, 0), True))
     obs.append(ob_flagval(2, (0, 1), False, top='first'))      # rows of the file NOT in ascending bit order
     obs.append(ob_flagval(3, (2, 0), False) if not q else ob_flagval(2, (1,), False))
@@ -233,10 +236,11 @@ def replay(rec):
                 d1 = int(inp.get('bit%d_d1' % i, 48)) - 48
                 b = d0 * 10 + d1 if inp.get('bit%d_two' % i, False) else d0
             bits.append(b)
-        grows = ['maskbits %s %d %s "bit %d"' % (GROUP, bits[i], LABELS[i], i) for i in range(nlabels)]
+        fcase = FILECASE[int(inp.get('filecase', 0))]
+        grows = ['maskbits %s %d %s "bit %d"' % (fcase(GROUP), bits[i], fcase(LABELS[i]), i) for i in range(nlabels)]
         other = ['maskbits OTHERGROUP 0 ZERO "zero"', 'maskbits OTHERGROUP 1 ONE "one"']
         lines += (grows + other) if not int(inp.get('rowsplit', 0)) else (grows[:1] + other[:1] + grows[1:] + other[1:])
-        lines += ['maskalias %s ALIASG' % GROUP]
+        lines += ['maskalias %s %s' % (fcase(GROUP), fcase('ALIASG'))]
         fn = os.path.join(tmp, 'm.par')
         with open(fn, 'w') as f:
             f.write('\n'.join(lines) + '\n')
@@ -256,12 +260,12 @@ def replay(rec):
                 return True
             got = sdss.sdss_flagname(GROUP, val)
             expn = [LABELS[i] for i in sorted(subset, key=lambda i: bits[i])]
-            if list(got) != expn:
+            if [str(g).upper() for g in got] != expn:
                 return True
             return int(sdss.sdss_flagval(GROUP, got)) != exp
         if d['fn'] == 'flagname':
             v = int(d.get('value', 0))
-            got = list(sdss.sdss_flagname(GROUP, np.uint64(v)))
+            got = [str(g).upper() for g in sdss.sdss_flagname(GROUP, np.uint64(v))]
             expn = [LABELS[i] for i in sorted(range(nlabels), key=lambda i: bits[i]) if (v >> bits[i]) & 1]
             if got != expn:
                 return True
@@ -269,7 +273,7 @@ def replay(rec):
             defined = 0
             for b in bits:
                 defined |= 1 << b
-            return back != (v & defined) or sdss.sdss_flagname(GROUP, np.uint64(v), concat=True) != ' '.join(got)
+            return back != (v & defined) or sdss.sdss_flagname(GROUP, np.uint64(v), concat=True).upper() != ' '.join(got)
         return True
     finally:
         shutil.rmtree(tmp, ignore_errors=True)
